@@ -142,7 +142,13 @@ ChooseSpecial == /\ phase = "start" /\ "reject" \in Kinds /\ kind' = "special-fi
 ChooseArgv == /\ phase = "start" /\ "argv" \in Kinds /\ kind' = "argv" /\ phase' = "done"
               /\ \E i \in 1 .. Len(Argvs) : argv' = Argvs[i] /\ label' = (IF Argvs[i][1] = "" THEN "empty-arg" ELSE Argvs[i][1]) \o "/args" \o ToString(Len(Argvs[i]))
               /\ expect' = "total" /\ UNCHANGED <<toks, muts>>
-Next == StartSoup \/ AddTok \/ StartMut \/ Mutate \/ ChooseReject \/ ChooseRuntime \/ ChooseFunc \/ ChooseTotal \/ ChooseSpecial \/ ChooseArgv
+(* arguments that are not text: given as bytes (the driver passes them on as they are); 255 and 254 are not valid UTF-8 *)
+ByteArgvs == << << <<115, 101, 108, 101, 99, 116, 32, 110, 97, 109, 101, 32, 102, 114, 111, 109, 32, 255>> >>,
+                << "name", "from", <<255, 46>> >>, << <<255>> >>, << "name", "from", ".", "where", "name", "=", <<39, 254, 39>> >>, << "-c", <<255, 254>>, "name from ." >> >>
+ChooseBytes == /\ phase = "start" /\ "argv" \in Kinds /\ kind' = "argv" /\ phase' = "done"
+               /\ \E i \in 1 .. Len(ByteArgvs) : argv' = ByteArgvs[i] /\ label' = "not-text" \o ToString(i)
+               /\ expect' = "total" /\ UNCHANGED <<toks, muts>>
+Next == StartSoup \/ AddTok \/ StartMut \/ Mutate \/ ChooseReject \/ ChooseRuntime \/ ChooseFunc \/ ChooseTotal \/ ChooseSpecial \/ ChooseArgv \/ ChooseBytes
 Spec == Init /\ [][Next]_vars
 
 RECURSIVE JoinSp(_)
